@@ -18,6 +18,8 @@ void vf_set_clock_ns(long long ns);
 int vf_thread_id(void);
 /* the calling thread may stay blocked when the scenario ends (e.g. pool workers) */
 void vf_mark_daemon(void);
+/* every thread other than the scenario thread belongs to the library (pool workers): they may stay blocked when the scenario ends */
+void vf_mark_library_threads_daemon(void);
 /* counters reported in the evidence */
 void vf_hit(const char* name);
 /* harness-level happens-before marker: a plain event that other oracles refer to (no scheduling point) */
